@@ -196,7 +196,7 @@ def _scalar_binop(interp, name, a, b, node, force_poly=False):
         r = pa * pb
     elif name == "div":
         if pb.is_zero():
-            raise AlgError("division by the constant zero")
+            raise alg.ZeroDiv("division by the constant zero")
         r = pa / pb
     elif name == "pow":
         r = pa**pb
@@ -228,7 +228,7 @@ def _num_binop(name, a, b):
         return a * b
     if name == "div":
         if b == 0:
-            raise AlgError("division by zero")
+            raise alg.ZeroDiv("division by zero")
         return Fr(a) / Fr(b) if not (isinstance(a, Fr) or isinstance(b, Fr)) else a / b
     if name == "floordiv":
         return a // b
@@ -539,9 +539,16 @@ def getitem(interp, o, i, node):
     if isinstance(o, (list, tuple, str, range)):
         if isinstance(i, slice):
             return o[slice(*[None if x is None else I._static_int(x) for x in (i.start, i.stop, i.step)])]
-        return o[I._static_int(i)]
+        ii = I._static_int(i)
+        try:
+            return o[ii]
+        except IndexError:
+            raise I.RepoRaise("IndexError", node, interp.cur_file(), f"index {ii} out of range for a sequence of length {len(o)}")
     if isinstance(o, dict):
-        return o[i]
+        try:
+            return o[i]
+        except KeyError:
+            raise I.RepoRaise("KeyError", node, interp.cur_file(), f"key {i!r}")
     if isinstance(o, Tens):
         idx = i if isinstance(i, tuple) else (i,)
         if any(isinstance(x, (Tens, list)) for x in idx):
@@ -732,6 +739,8 @@ def at_update(interp, proxy, kind, args, kwargs, node):
             ii = T._as_int(it)
             if ii is None:
                 raise Unsupported(f".at index {it!r}")
+            if not (-t.shape[ax] <= ii < t.shape[ax]):
+                raise ShapeError(f"index {ii} is out of bounds for axis {ax} with size {t.shape[ax]}")
             ranges.append([ii % t.shape[ax]])
     positions = list(itertools.product(*ranges))
     if len(vt.data) == 1:
